@@ -122,7 +122,13 @@ def loop_hook(ip, st, it, env, fr, ctx):
     for k, v in it.pre_locals.items():
         env[k] = v
     ip.assign(st.target, it.element, env, fr, ctx)
-    ip.block(st.body, env, fr, ctx)
+    from .interp import BreakEx, ContinueEx
+    try:
+        ip.block(st.body, env, fr, ctx)
+    except ContinueEx:
+        pass
+    except BreakEx:
+        raise _uns("break inside a loop proved by a one-step lemma")
     raise LoopStepDone(dict(env))
 
 
